@@ -4,6 +4,7 @@
   tools/seed.py confirm <wt> <n> <seed-id>      confirm a sub-agent's change (out/patch<n>.diff, out/demo<n>.py, out/meta<n>.json in
                                                 the scratch worktree <wt>): suite still 193 passed / 2 failed with the patch, the
                                                 demonstration fails with it and passes without it; then file it as seeded/<seed-id>/
+  tools/seed.py harmless <wt>|- <n> <id>               run EVERY claimed check against a behaviour-preserving refactor (filed under harmless/<id>/)
   tools/seed.py run <seed-id> [PID ...] [--tier quick]   run the checks (default: the property the seed breaks) against a scratch copy of /repo
                                                 with the patch applied, from a private copy of /verif; record the outcome in
                                                 seeded/<seed-id>/meta.json ("detection") and print it
@@ -142,8 +143,11 @@ def harmless(wt: Path, n: str, hid: str) -> int:
     from concurrent.futures import ThreadPoolExecutor
     dst = VERIF / "harmless" / hid
     dst.mkdir(parents=True, exist_ok=True)
-    shutil.copy(wt / "out" / f"patch{n}.diff", dst / "patch.diff")
-    note = json.loads((wt / "out" / f"note{n}.json").read_text())
+    if str(wt) == "-":          # re-run a refactor that is already filed
+        note = json.loads((dst / "meta.json").read_text())["note"]
+    else:
+        shutil.copy(wt / "out" / f"patch{n}.diff", dst / "patch.diff")
+        note = json.loads((wt / "out" / f"note{n}.json").read_text())
     manifest = json.loads((VERIF / "MANIFEST.json").read_text())
     pids = [c["property_id"] for c in manifest["checks"]]
     scratch = Path("/tmp/seedrun") / f"{hid}-{os.getpid()}"
